@@ -397,7 +397,7 @@ class DynamicArray {
     }
 
     json DecodeJson() const {
-        json j{};
+        json j = json::array();
         for (auto x: GetData()) {
             j.push_back(x.DecodeJson());
         }
